@@ -131,8 +131,8 @@ theorem reply_complete_subdomain {q : Packet} {s : Store} {now : Nat} (hI : Inv 
 
 /-- cached records never appear in replies, not even under another TTL -/
 theorem cached_not_in_reply {q : Packet} {s : Store} {now : Nat} {r : Packet} {u : Bool}
-    (hI : Inv s) (h : buildReply q s now = some (r, u)) {k : Key} {b : Bucket} {c : RR} {e : Nat}
-    (hk : (k, b) ∈ s.entries) (hc : (c, Kind.cached e) ∈ b) :
+    (hI : Inv s) (h : buildReply q s now = some (r, u)) {k : Key} {b : Bucket} {c : RR} {e rf : Nat}
+    (hk : (k, b) ∈ s.entries) (hc : (c, Kind.cached e rf) ∈ b) :
     ∀ a ∈ r.answers, rrEq a c = false := by
   intro a ha
   rw [(buildReply_eq_some h).2.1] at ha
@@ -316,8 +316,8 @@ theorem no_empty_reply_of_reachable {q : Packet} {s : Store} {now : Nat} (hR : R
   no_empty_reply hR.inv hR.storeOK hQ h
 
 theorem cached_not_in_reply_of_reachable {q : Packet} {s : Store} {now : Nat} {r : Packet} {u : Bool}
-    (hR : Reachable s) (h : buildReply q s now = some (r, u)) {k : Key} {b : Bucket} {c : RR} {e : Nat}
-    (hk : (k, b) ∈ s.entries) (hc : (c, Kind.cached e) ∈ b) :
+    (hR : Reachable s) (h : buildReply q s now = some (r, u)) {k : Key} {b : Bucket} {c : RR} {e rf : Nat}
+    (hk : (k, b) ∈ s.entries) (hc : (c, Kind.cached e rf) ∈ b) :
     ∀ a ∈ r.answers, rrEq a c = false :=
   cached_not_in_reply hR.inv h hk hc
 
